@@ -611,7 +611,9 @@ def run(tier="quick", replay=None):
                 "auto: step machine compares against %s" % sorted(need),
                 "step machine's big-integer constants %s no longer cover the opcodes of a,i,c,f,r %s" % (
                     sorted(step_consts), sorted(x for x in need if x is not None)), fn=f.path)
-    R.floor("R20.STEP", "labelled constants", labelled, 5)
+    # the labelled comparison is by local NAME and therefore optional (a rename must not raise an alarm); the name-free
+    # part is R20.STEP.set above and C06's R06.arity (opcode -> enforced argument count vs the consensus implementation)
+    R.counts["STEP labelled constants (by local name, optional)"] = labelled
 
     nlit = 0
     for path, (kwname, why) in sorted(NAMED_LITERAL_FNS.items()):
